@@ -183,23 +183,27 @@ theorem anyPc_eq_false (P : Pc → Bool) (ths : List Thread) (oid : Oid)
     obtain ⟨j, th, hj, ho, hp⟩ := (anyPc_eq_true P ths oid).mp hb
     rw [h j th hj ho] at hp; cases hp
 
+/-- where a writer starts: at the existence check (`add(..., check_exists=True)`), or straight at the copy
+    (`check_exists=False`, what `transfer()` passes after a status query of its own made some time before) -/
+def Pc.start (pc : Pc) : Prop := pc = Pc.stat ∨ pc = Pc.probe
+
 /-- every writer about to start, over a store in which protected objects match their names
     (what C15 guarantees of any store these operations leave behind, crashes included) -/
 theorem good_init (s : S) (ths : List Thread)
-    (hpc : ∀ (j : Nat) (th : Thread), ths[j]? = some th → th.pc = Pc.stat)
+    (hpc : ∀ (j : Nat) (th : Thread), ths[j]? = some th → th.pc.start)
     (hwf : ∀ (j : Nat) (th : Thread), ths[j]? = some th → H th.chunks.flatten = th.oid)
     (htd : ∀ (i j : Nat) (thi thj : Thread), ths[i]? = some thi → ths[j]? = some thj → thi.t = thj.t → i = j)
     (hs : ∀ oid o, s.objs.lookup oid = some o → o.prot = true → H o.data = oid) : Good H (s, ths) := by
   refine ⟨hwf, htd, ?_, ?_⟩
   · intro j th h hw
-    rw [hpc j th h] at hw; cases hw
+    rcases hpc j th h with e | e <;> rw [e] at hw <;> cases hw
   · intro oid
     have hu : anyPc (fun pc => (flagsOfPc pc).u) ths oid = false :=
-      anyPc_eq_false _ _ _ (fun j th h _ => by rw [hpc j th h]; rfl)
+      anyPc_eq_false _ _ _ (fun j th h _ => by rcases hpc j th h with e | e <;> rw [e] <;> rfl)
     have hs' : anyPc (fun pc => (flagsOfPc pc).s) ths oid = false :=
-      anyPc_eq_false _ _ _ (fun j th h _ => by rw [hpc j th h]; rfl)
+      anyPc_eq_false _ _ _ (fun j th h _ => by rcases hpc j th h with e | e <;> rw [e] <;> rfl)
     have hd : anyPc (fun pc => (flagsOfPc pc).d) ths oid = false :=
-      anyPc_eq_false _ _ _ (fun j th h _ => by rw [hpc j th h]; rfl)
+      anyPc_eq_false _ _ _ (fun j th h _ => by rcases hpc j th h with e | e <;> rw [e] <;> rfl)
     unfold GoodAbs flagsOf absObj
     simp only [hu, hs', hd]
     cases hl : s.objs.lookup oid with
@@ -245,7 +249,7 @@ theorem final_correct (c : Cfg) (hg : Good H c) (oid : Oid)
     match their names, and run *any* schedule.  Whenever the writers of a name have all finished
     successfully, the object is present, complete and write-protected. -/
 theorem any_schedule_final_correct (s : S) (ths : List Thread) (sched : List Nat)
-    (hpc : ∀ (j : Nat) (th : Thread), ths[j]? = some th → th.pc = Pc.stat)
+    (hpc : ∀ (j : Nat) (th : Thread), ths[j]? = some th → th.pc.start)
     (hwf : ∀ (j : Nat) (th : Thread), ths[j]? = some th → H th.chunks.flatten = th.oid)
     (htd : ∀ (i j : Nat) (thi thj : Thread), ths[i]? = some thi → ths[j]? = some thj → thi.t = thj.t → i = j)
     (hs : ∀ oid o, s.objs.lookup oid = some o → o.prot = true → H o.data = oid) (oid : Oid)
@@ -290,7 +294,7 @@ theorem stepAt_root_not_lost (c : Cfg) (i : Nat)
 
 /-- **C16 (all succeed, privileged process).** Under any schedule no writer fails. -/
 theorem root_never_fails (s : S) (ths : List Thread) (sched : List Nat)
-    (hpc : ∀ (j : Nat) (th : Thread), ths[j]? = some th → th.pc = Pc.stat) :
+    (hpc : ∀ (j : Nat) (th : Thread), ths[j]? = some th → th.pc.start) :
     ∀ (j : Nat) (th : Thread), (runSched true H (s, ths) sched).2[j]? = some th → th.pc ≠ Pc.failed := by
   have key : ∀ (sched : List Nat) (c : Cfg), (∀ (j : Nat) (th : Thread), c.2[j]? = some th → th.pc.lost = false) →
       ∀ (j : Nat) (th : Thread), (runSched true H c sched).2[j]? = some th → th.pc.lost = false := by
@@ -299,7 +303,12 @@ theorem root_never_fails (s : S) (ths : List Thread) (sched : List Nat)
     | nil => intro c h; exact h
     | cons i r ih => intro c h; exact ih _ (stepAt_root_not_lost H c i h)
   intro j th hj hf
-  have := key sched (s, ths) (fun j th h => by rw [hpc j th h]; rfl) j th hj
+  have := key sched (s, ths) (fun j th h => by
+    have hst := hpc j th h
+    unfold Pc.start at hst
+    cases hst with
+    | inl e => rw [e]; rfl
+    | inr e => rw [e]; rfl) j th hj
   rw [hf] at this; cases this
 
 /-- wait-freedom: every step of a writer that has not finished brings it strictly closer to finishing,
@@ -548,7 +557,7 @@ theorem rerun_recovers (s : S) (th : Thread) (hpc : th.pc = Pc.stat) (hwf : H th
     apply good_init H s [th] ?_ ?_ ?_ hs
     · intro j t h
       cases j with
-      | zero => simp at h; rw [← h]; exact hpc
+      | zero => simp at h; rw [← h]; exact Or.inl hpc
       | succ j => simp at h
     · intro j t h
       cases j with
@@ -598,7 +607,7 @@ theorem three_idx (j : Nat) (th : Thread) (h : three[j]? = some th) :
 
 example : Good toyH (({} : S), three) := by
   refine good_init toyH {} three ?_ ?_ ?_ (by intro oid o h; simp [AList.lookup] at h)
-  · intro j th h; rcases three_idx j th h with ⟨_, rfl⟩ | ⟨_, rfl⟩ | ⟨_, rfl⟩ <;> rfl
+  · intro j th h; rcases three_idx j th h with ⟨_, rfl⟩ | ⟨_, rfl⟩ | ⟨_, rfl⟩ <;> exact Or.inl rfl
   · intro j th h; rcases three_idx j th h with ⟨_, rfl⟩ | ⟨_, rfl⟩ | ⟨_, rfl⟩ <;> decide
   · intro i j thi thj hi hj ht
     rcases three_idx i thi hi with ⟨rfl, rfl⟩ | ⟨rfl, rfl⟩ | ⟨rfl, rfl⟩ <;>
